@@ -49,18 +49,26 @@ class cpu_guard:
 
     def __enter__(self):
         self.old = signal.signal(signal.SIGVTALRM, _on_alarm)
-        signal.setitimer(signal.ITIMER_VIRTUAL, CPU_LIMIT)
+        # periodic: a C extension in between (lazy_object_proxy) may clear the first exception and call again
+        signal.setitimer(signal.ITIMER_VIRTUAL, CPU_LIMIT, CPU_LIMIT / 4)
 
     def __exit__(self, *exc):
-        signal.setitimer(signal.ITIMER_VIRTUAL, 0)
-        signal.signal(signal.SIGVTALRM, self.old)
-        return False
+        while True:
+            try:
+                signal.setitimer(signal.ITIMER_VIRTUAL, 0)
+                signal.signal(signal.SIGVTALRM, self.old)
+                return False
+            except ImplTimeout:     # a late tick while switching the timer off
+                continue
 
 
 def impl_call(fn, *a, **kw):
     """common.impl_call with a CPU-time bound: a call that does not return is an observation too."""
-    with cpu_guard():
-        return common.impl_call(fn, *a, **kw)
+    try:
+        with cpu_guard():
+            return common.impl_call(fn, *a, **kw)
+    except ImplTimeout as e:        # a tick between the return of the call and the end of the guard
+        return "raise", "ImplTimeout: " + str(e)
 
 
 def _limit_worker_memory():
